@@ -2,7 +2,7 @@
    transcription) = SPEC (Akamai format on abstract frames), outside the known classes. *)
 From Coq Require Import List NArith ZArith Bool Lia ZifyBool ZifyN Arith.
 From Coq Require Import Strings.Byte.
-From HN Require Import Base.Bytes Model.H2Text Model.H2Frames Model.Hpack Model.Akamai Model.AkamaiInc
+From HN Require Import Base.Bytes Model.H2Text Model.H2Frames Model.Hpack Model.H2Msg Model.Akamai Model.AkamaiInc
      Spec.H2Wire Spec.AkamaiSpec Proofs.H2FramesProofs Proofs.HpackProofs.
 Import ListNotations.
 Open Scope N_scope.
@@ -151,13 +151,63 @@ Proof. destruct b; reflexivity. Qed.
 Lemma starts_colon_is_pseudo h : starts_with_colon (fst h) = is_pseudo h.
 Proof. unfold starts_with_colon, is_pseudo. destruct (fst h) as [|b r]; [reflexivity|apply beqb_colon]. Qed.
 
-Lemma find_first_headers frames :
-  find is_headers_pos frames = option_map fst (first_headers frames).
+Lemma find_first_headers frames : find_headers_pos frames = first_headers frames.
 Proof.
   induction frames as [|f r IH]; [reflexivity|].
-  cbn [find first_headers]. unfold is_headers_pos at 1. change T_HEADERS with 1.
+  cbn [find_headers_pos first_headers]. unfold is_headers_pos. change T_HEADERS with 1.
   replace (0 <? f_stream f) with (negb (f_stream f =? 0)) by lia.
   destruct ((f_type f =? 1) && negb (f_stream f =? 0)); [reflexivity|exact IH].
+Qed.
+
+(* flags & 2^k != 0  is bit k *)
+Lemma land_pow2 a k : N.land a (2 ^ k) = if N.testbit a k then 2 ^ k else 0.
+Proof.
+  apply N.bits_inj. intros m. rewrite N.land_spec, N.pow2_bits_eqb.
+  destruct (N.testbit a k) eqn:E.
+  - rewrite N.pow2_bits_eqb. destruct (N.eqb_spec k m) as [->|Hne]; [now rewrite E|apply andb_false_r].
+  - rewrite N.bits_0. destruct (N.eqb_spec k m) as [->|Hne]; [now rewrite E|apply andb_false_r].
+Qed.
+Lemma has_flag_testbit a k : has_flag a (2 ^ k) = N.testbit a k.
+Proof.
+  unfold has_flag. rewrite land_pow2. destruct (N.testbit a k); [|reflexivity].
+  assert (2 ^ k <> 0) by (apply N.pow_nonzero; lia). destruct (N.eqb_spec (2 ^ k) 0); [contradiction|reflexivity].
+Qed.
+
+(* Http2Parser::headers_fragment computes the header block fragment of RFC 7540 6.2 *)
+Lemma headers_fragment_spec f : headers_fragment f = headers_block_fragment f.
+Proof.
+  unfold headers_fragment, headers_block_fragment, flag.
+  change FLAG_PADDED with (2 ^ PADDED_bit). change FLAG_PRIORITY with (2 ^ PRIORITY_bit).
+  rewrite !has_flag_testbit.
+  assert (Hlast : forall (p2 : bytes) padlen,
+            (if blen p2 <? padlen then None else Some (firstn (N.to_nat (blen p2 - padlen)) p2))
+            = (if blen p2 <? padlen then None else Some (firstn (length p2 - N.to_nat padlen)%nat p2))).
+  { intros p2 padlen. destruct (blen p2 <? padlen) eqn:E; [reflexivity|].
+    do 2 f_equal. unfold blen in *. lia. }
+  assert (Hprio : forall (p1 : bytes), (blen p1 <? 5) = Nat.ltb (length p1) 5).
+  { intros p1. unfold blen. destruct (Nat.ltb_spec (length p1) 5); lia. }
+  destruct (N.testbit (f_flags f) PADDED_bit).
+  - destruct (f_payload f) as [|b r]; [reflexivity|].
+    destruct (N.testbit (f_flags f) PRIORITY_bit).
+    + rewrite Hprio. destruct (Nat.ltb (length r) 5); [reflexivity|apply Hlast].
+    + apply Hlast.
+  - destruct (N.testbit (f_flags f) PRIORITY_bit).
+    + rewrite Hprio. destruct (Nat.ltb (length (f_payload f)) 5); [reflexivity|apply Hlast].
+    + apply Hlast.
+Qed.
+
+Lemma collect_spec sid : forall r blk t,
+  continuation sid r = Some t -> collect_continuations sid r blk = blk ++ t.
+Proof.
+  induction r as [|f r IH]; intros blk t H; [discriminate|].
+  cbn [continuation collect_continuations] in *. change T_CONTINUATION with 9.
+  destruct ((f_type f =? 9) && (f_stream f =? sid)) eqn:E; [|discriminate].
+  apply andb_true_iff in E. destruct E as [E1 E2]. rewrite E1, E2. cbn [negb orb].
+  change FLAG_END_HEADERS with (2 ^ END_HEADERS_bit). rewrite has_flag_testbit. unfold flag in H.
+  destruct (N.testbit (f_flags f) END_HEADERS_bit).
+  - now inversion H.
+  - destruct (continuation sid r) as [t'|]; [|discriminate]. inversion H; subst.
+    rewrite (IH _ t' eq_refl). now rewrite app_assoc.
 Qed.
 
 Lemma filter_filter_pseudo (hs : list header) :
@@ -203,31 +253,32 @@ Proof.
   rewrite (letter_model _ _ E). f_equal. now apply IH.
 Qed.
 
-Lemma fragment_plain f :
-  flag f PADDED_bit = false -> flag f PRIORITY_bit = false ->
-  headers_block_fragment f = Some (f_payload f).
-Proof.
-  intros H1 H2. unfold headers_block_fragment. rewrite H1, H2.
-  replace (blen (f_payload f) <? 0) with false by lia.
-  change (N.to_nat 0) with 0%nat. rewrite Nat.sub_0_r, firstn_all. reflexivity.
-Qed.
-
 Lemma ps_model_spec frames :
-  k_headers_flags frames = false -> k_continued frames = false -> k_nonutf8 frames = false ->
+  k_incomplete_block frames = false -> k_nonutf8 frames = false ->
   ps_wf_list (filter is_pseudo (first_block_headers frames)) = true ->
   exists ps, extract_pseudo_header_order frames = Val ps /\
              join (bs ",") (map pseudo_show ps) = PS_part frames.
 Proof.
-  unfold k_headers_flags, k_continued, k_nonutf8, extract_pseudo_header_order, PS_part, first_block_headers, first_block.
+  unfold k_incomplete_block, k_nonutf8, extract_pseudo_header_order, PS_part, first_block_headers, first_block.
   rewrite find_first_headers.
-  destruct (first_headers frames) as [[f r]|]; cbn [option_map fst].
-  2:{ intros _ _ _ _. exists []. split; reflexivity. }
-  intros K2 K3 K4 Hwf.
-  apply orb_false_iff in K2. destruct K2 as [Kpad Kprio]. apply negb_false_iff in K3.
-  rewrite (fragment_plain f Kpad Kprio), K3 in *.
+  destruct (first_headers frames) as [[f r]|].
+  2:{ intros _ _ _. exists []. split; reflexivity. }
+  rewrite headers_fragment_spec.
+  destruct (headers_block_fragment f) as [frag|].
+  2:{ intros _ _ _. exists []. split; reflexivity. }
+  change FLAG_END_HEADERS with (2 ^ END_HEADERS_bit). rewrite has_flag_testbit. unfold flag.
+  intros K2 K4 Hwf.
+  assert (Hblock : exists block,
+            (if N.testbit (f_flags f) END_HEADERS_bit then frag else collect_continuations (f_stream f) r frag) = block /\
+            (if N.testbit (f_flags f) END_HEADERS_bit then Some frag
+             else option_map (fun t => frag ++ t) (continuation (f_stream f) r)) = Some block).
+  { destruct (N.testbit (f_flags f) END_HEADERS_bit); [eauto|].
+    destruct (continuation (f_stream f) r) as [t|] eqn:Ec; [|discriminate].
+    exists (frag ++ t). split; [now apply collect_spec|reflexivity]. }
+  destruct Hblock as (block & -> & Hs). unfold flag in *. rewrite Hs in *.
   unfold pseudo_order_of_payload.
-  pose proof (hpack_decode_no_panic (f_payload f)) as Hnp.
-  destruct (hpack_decode dt_new (f_payload f)) as [hs t| | |].
+  pose proof (hpack_decode_no_panic block) as Hnp.
+  destruct (hpack_decode dt_new block) as [hs t| | |].
   - eexists. split; [reflexivity|].
     rewrite (filter_filter_pseudo hs K4).
     now rewrite letters_model.
@@ -251,8 +302,8 @@ Theorem akamai_model_spec frames :
   extract_akamai_fingerprint frames = Val (fp frames).
 Proof.
   intros Hwf Hk. apply wf_frames_split in Hwf. destruct Hwf as (Hwu & Hpr & Hps).
-  unfold known in Hk. rewrite !orb_false_iff in Hk. destruct Hk as [[[K1 K2] K3] K4].
-  destruct (ps_model_spec frames K2 K3 K4 Hps) as (ps & Eps & Hjoin).
+  unfold known in Hk. rewrite !orb_false_iff in Hk. destruct Hk as [[K1 K2] K4].
+  destruct (ps_model_spec frames K2 K4 Hps) as (ps & Eps & Hjoin).
   unfold extract_akamai_fingerprint, fp. rewrite Eps.
   unfold extract_settings_parameters, first_settings, k_empty_settings in *.
   change is_settings0 with settings_frame.
@@ -282,10 +333,11 @@ Qed.
 Lemma extract_no_panic frames : extract_akamai_fingerprint frames <> Panicked.
 Proof.
   unfold extract_akamai_fingerprint, extract_pseudo_header_order.
-  destruct (find is_headers_pos frames) as [f|].
-  - unfold pseudo_order_of_payload. pose proof (hpack_decode_no_panic (f_payload f)) as H.
-    destruct (hpack_decode dt_new (f_payload f)); try congruence;
-      destruct (extract_settings_parameters frames); discriminate.
+  destruct (find_headers_pos frames) as [[f r]|].
+  - destruct (headers_fragment f) as [frag|]; [|destruct (extract_settings_parameters frames); discriminate].
+    unfold pseudo_order_of_payload.
+    match goal with |- context [hpack_decode dt_new ?b] => pose proof (hpack_decode_no_panic b) as H; destruct (hpack_decode dt_new b) end;
+      try congruence; destruct (extract_settings_parameters frames); discriminate.
   - destruct (extract_settings_parameters frames); discriminate.
 Qed.
 
@@ -412,41 +464,45 @@ Proof. induction chunks as [|c r IH]; intros received; [reflexivity|]. cbn [inc_
 Section Incremental.
   Variables (pre : bool) (frs : list (bool * frame)).
   Hypothesis Hok : forallb wire_ok frs = true.
-  (* every frame-list prefix a receiver can have seen is in the domain of the format theorem *)
-  Hypothesis Hdom : forall k, wf_frames (firstn k (map snd frs)) = true /\ known (firstn k (map snd frs)) = false.
 
   Lemma oneshot_on_prefix (data : bytes) :
     starts_with data (stream_start pre frs) = true ->
+    wf_frames (visible_at pre frs (blen data)) = true -> known (visible_at pre frs (blen data)) = false ->
     extract_akamai_fingerprint_from_bytes data = Val (fp (visible_at pre frs (blen data))).
   Proof.
-    intros Hpre. apply starts_with_firstn in Hpre.
+    intros Hpre Hwf Hk. apply starts_with_firstn in Hpre.
     unfold extract_akamai_fingerprint_from_bytes. rewrite Hpre at 1.
     replace (length data) with (N.to_nat (blen data)) by (unfold blen; lia).
     rewrite parse_skip_preface_prefix by exact Hok.
-    destruct (visible_at_is_prefix pre frs (blen data)) as [k ->].
-    destruct (Hdom k) as [Hwf Hk]. now apply akamai_model_spec.
+    now apply akamai_model_spec.
   Qed.
 
+  (* only the frame lists seen at the chunk boundaries up to the report have to be in the domain *)
   Lemma prefixes_spec chunks : forall buf,
     starts_with (buf ++ concat chunks) (stream_start pre frs) = true ->
+    Forall (fun vis => wf_frames vis = true /\ known vis = false) (boundaries pre frs (blen buf) chunks) ->
     report_first (oneshot_prefixes buf chunks) = map to_add (inc_spec_from pre frs (blen buf) false chunks).
   Proof.
-    induction chunks as [|c r IH]; intros buf Hpre; [reflexivity|].
-    cbn [oneshot_prefixes inc_spec_from concat] in *. rewrite app_assoc in Hpre.
-    rewrite (oneshot_on_prefix (buf ++ c)) by (eapply starts_with_app_l; exact Hpre).
-    rewrite blen_app.
-    destruct (fp (visible_at pre frs (blen buf + blen c))) as [t|].
+    induction chunks as [|c r IH]; intros buf Hpre Hdom; [reflexivity|].
+    cbn [oneshot_prefixes inc_spec_from concat boundaries] in *. rewrite app_assoc in Hpre.
+    rewrite <- blen_app in *.
+    assert (Hhead : wf_frames (visible_at pre frs (blen (buf ++ c))) = true /\ known (visible_at pre frs (blen (buf ++ c))) = false).
+    { destruct (fp (visible_at pre frs (blen (buf ++ c)))); inversion Hdom; subst; assumption. }
+    destruct Hhead as [Hwf Hk].
+    rewrite (oneshot_on_prefix (buf ++ c)) by (try assumption; eapply starts_with_app_l; exact Hpre).
+    destruct (fp (visible_at pre frs (blen (buf ++ c)))) as [t|].
     - cbn [report_first map to_add]. f_equal. rewrite inc_spec_done, map_map.
       apply map_const_length. apply oneshot_prefixes_length.
-    - cbn [report_first map to_add]. f_equal. rewrite <- blen_app. now apply IH.
+    - cbn [report_first map to_add]. f_equal. apply IH; [exact Hpre|]. now inversion Hdom.
   Qed.
 
   Theorem inc_model_spec chunks :
     starts_with (concat chunks) (stream_start pre frs) = true ->
+    Forall (fun vis => wf_frames vis = true /\ known vis = false) (boundaries pre frs 0 chunks) ->
     inc_outs chunks = map to_add (inc_spec pre frs chunks).
   Proof.
-    intros Hpre. rewrite inc_is_first_oneshot. unfold inc_spec.
-    change 0 with (blen []). now apply prefixes_spec.
+    intros Hpre Hdom. rewrite inc_is_first_oneshot. unfold inc_spec.
+    change 0 with (blen []) in *. now apply prefixes_spec.
   Qed.
 End Incremental.
 
@@ -457,16 +513,19 @@ Definition mkf (ty fl st : N) (p : bytes) : frame := {| f_type := ty; f_flags :=
 
 (* K1: empty first SETTINGS frame, then WINDOW_UPDATE: the format gives "|15663105|0|", the code nothing *)
 Definition w_empty_settings : list frame := [mkf 4 0 0 []; mkf 8 0 0 (hx "00ef0001")].
-(* K2: Chrome-style HEADERS with the PRIORITY flag (E=1, dep 0, weight 255) then :method GET, :authority .., :scheme https, :path / *)
+(* K2: HEADERS without END_HEADERS carrying 82 (:method GET), its CONTINUATION not (yet) there: the format
+   has no complete block (PS empty), the code reports m *)
+Definition w_incomplete : list frame :=
+  [mkf 4 0 0 (hx "000300000064"); mkf 1 0 1 (hx "82")].
+(* formerly deviating inputs (fixed by 89b3393), now inside the theorem's domain:
+   Chrome-style HEADERS with the PRIORITY flag, PADDED HEADERS, HEADERS + CONTINUATION *)
 Definition w_headers_priority : list frame :=
   [mkf 4 0 0 (hx "000300000064"); mkf 1 37 1 (hx "80000000ff" ++ hx "82418a089d5c0b8170dc780f038784")].
-(* K2: the same block in a PADDED HEADERS frame (pad length 2) *)
 Definition w_headers_padded : list frame :=
   [mkf 4 0 0 (hx "000300000064"); mkf 1 12 1 (hx "02" ++ hx "82418a089d5c0b8170dc780f038784" ++ hx "0000")].
-(* K3: the block split after its first octet into HEADERS + CONTINUATION *)
 Definition w_continued : list frame :=
   [mkf 4 0 0 (hx "000300000064"); mkf 1 0 1 (hx "82"); mkf 9 4 1 (hx "418a089d5c0b8170dc780f038784")].
-(* K4: :path with a value that is not UTF-8 (literal, 2f ff) between :method and :scheme *)
+(* K3: :path with a value that is not UTF-8 (literal, 2f ff) between :method and :scheme *)
 Definition w_nonutf8 : list frame :=
   [mkf 4 0 0 (hx "000300000064"); mkf 1 4 1 (hx "8204022fff87")].
 
@@ -474,18 +533,16 @@ Lemma Known_empty_settings_refuted :
   exists frames, wf_frames frames = true /\ k_empty_settings frames = true /\
                  extract_akamai_fingerprint frames <> Val (fp frames).
 Proof. exists w_empty_settings. vm_compute. repeat split; discriminate. Qed.
-Lemma Known_headers_priority_refuted :
-  exists frames, wf_frames frames = true /\ k_headers_flags frames = true /\
+Lemma Known_incomplete_block_refuted :
+  exists frames, wf_frames frames = true /\ k_incomplete_block frames = true /\
                  extract_akamai_fingerprint frames <> Val (fp frames).
-Proof. exists w_headers_priority. vm_compute. repeat split; discriminate. Qed.
-Lemma Known_headers_padded_refuted :
-  exists frames, wf_frames frames = true /\ k_headers_flags frames = true /\
-                 extract_akamai_fingerprint frames <> Val (fp frames).
-Proof. exists w_headers_padded. vm_compute. repeat split; discriminate. Qed.
-Lemma Known_continued_refuted :
-  exists frames, wf_frames frames = true /\ k_continued frames = true /\
-                 extract_akamai_fingerprint frames <> Val (fp frames).
-Proof. exists w_continued. vm_compute. repeat split; discriminate. Qed.
+Proof. exists w_incomplete. vm_compute. repeat split; discriminate. Qed.
+(* the three former witnesses are in the domain and agree now *)
+Lemma former_witnesses_agree :
+  Forall (fun frames => wf_frames frames = true /\ known frames = false /\
+                        extract_akamai_fingerprint frames = Val (Some (bs "3:100|00|0|m,a,s,p")))
+         [w_headers_priority; w_headers_padded; w_continued].
+Proof. repeat constructor; vm_compute; reflexivity. Qed.
 Lemma Known_nonutf8_refuted :
   exists frames, wf_frames frames = true /\ k_nonutf8 frames = true /\
                  extract_akamai_fingerprint frames <> Val (fp frames).
@@ -497,4 +554,5 @@ Definition ex_frames : list (bool * frame) :=
   [(false, mkf 4 0 0 (hx "000100010000000300000064000400600000"));
    (true, mkf 8 0 0 (hx "80ef0001"));
    (false, mkf 2 0 3 (hx "80000000c8")); (false, mkf 2 0 5 (hx "0000000364"));
-   (false, mkf 1 5 1 (hx "82418a089d5c0b8170dc780f038784"))].
+   (false, mkf 1 41 1 (hx "02" ++ hx "80000000ff" ++ hx "82418a089d5c" ++ hx "0000"));
+   (false, mkf 9 4 1 (hx "0b8170dc780f038784"))].
